@@ -48,6 +48,16 @@ Base(name, f) ==
             [] f = "b" -> Mk(TRUE, P, <<Imp("a", FALSE)>>, {}, Ref(P, "A"))
             [] f = "c" -> Mk(TRUE, P, <<Imp("a", FALSE)>>, {}, Ref(P, "A"))
             [] OTHER -> DefaultFile)
+    [] name = "twins" ->   \* a and b in one package, unrelated by imports, both declare B: duplicate at link level
+         (CASE f = "a" -> Mk(TRUE, P, <<>>, {"B"}, NoRef)
+            [] f = "b" -> Mk(TRUE, P, <<>>, {"B"}, NoRef)
+            [] f = "c" -> Mk(TRUE, P, <<Imp("a", FALSE), Imp("b", FALSE)>>, {}, NoRef)
+            [] OTHER -> DefaultFile)
+    [] name = "late" ->    \* a imports the absent b and c; b and c collide once both exist
+         (CASE f = "a" -> Mk(TRUE, P, <<Imp("b", FALSE), Imp("c", FALSE)>>, {}, NoRef)
+            [] f = "b" -> Mk(FALSE, P, <<>>, {"A", "B"}, NoRef)
+            [] f = "c" -> Mk(TRUE, P, <<>>, {}, NoRef)
+            [] OTHER -> DefaultFile)
     [] OTHER -> DefaultFile
 
 InitWs(name) == [f \in Files |-> Base(name, f)]
@@ -64,15 +74,16 @@ Init ==
        /\ ws = InitWs(name)
        /\ req = m
   /\ hist = <<>>
+  /\ done = FALSE
 
 Spec == Init /\ [][Next]_vars
 
-View == IF ViewMode = "full" THEN <<ws, req, origin.name, hist>>
-        ELSE <<ws, req, origin.name, Len(hist), IF Len(hist) = 0 THEN <<>> ELSE hist[Len(hist)].edit>>
+View == IF ViewMode = "full" THEN <<ws, req, origin.name, hist, done>>
+        ELSE <<ws, req, origin.name, Len(hist), IF Len(hist) = 0 THEN <<>> ELSE hist[Len(hist)].edit, done>>
 
-Case == [kind |-> "hist", origin |-> origin, steps |-> hist, final |-> WsV(ws)]
+Case == [kind |-> "hist", origin |-> origin, steps |-> [i \in 1..Len(hist) |-> StepV(hist[i])], final |-> WsV(ws)]
 
 Export ==
-  ((ExportAt = "all" /\ Len(hist) >= 1) \/ (ExportAt = "end" /\ Len(hist) = MaxLen))
+  ((ExportAt = "all" /\ Len(hist) >= 1 /\ ~done) \/ (ExportAt = "end" /\ done))
      => PrintT("CASE " \o ToJson(Case))
 =============================================================================
